@@ -47,6 +47,9 @@ def main(argv):
                 if s not in seen:
                     seen.add(s)
                     uniq.append((k, s))
+            # the hypothesis of theorems decode_no_panic_ideal / decode_panics_only_at_known_hazards on this layout
+            wf = co.model(i, T, [{"k": "len", "v": {}}])
+            run.hist("theorem_hypotheses", "decWfBody:%s" % (wf[0].get("decwf") if isinstance(wf, list) else "?"))
             mdec = co.model(i, T, [{"k": "dec", "hex": s.hex()} for _, s in uniq])
             if not isinstance(mdec, list):
                 run.violation("corr", "model failed on %s: %s" % (T, mdec), {"pdl": d["text"], "type": T}, found_input=False)
